@@ -759,6 +759,9 @@ func directFixed(r *Rng, sink *Sink, n int) int {
 	checks := len(zeroValueMethods())
 	zeroLaw("")
 	checks += duplicateConcurrent(600)
+	if wants("C12") {
+		checks += sharedPrefixLaws(r)
+	}
 	for i := 0; i < n; i++ {
 		checks += lawsForSeed(r.Next() % 1000000007)
 	}
@@ -910,10 +913,15 @@ func replayDirect(line string) string {
 		var s uint64
 		fmt.Sscanf(f[len(f)-1], "seed=%d", &s)
 		lawsForSeed(s)
+	case "concat-shared-prefix":
+		// the law draws its shapes from a PRNG: re-run it over a fixed range of seeds and report every failure of that law
+		for s := uint64(1); s <= 40; s++ {
+			sharedPrefixLaws(NewRng(s))
+		}
 	}
 	out := []string{}
 	for _, d := range dfails {
-		if f[1] == "zero-value" || strings.Contains(d.input, " "+want+" ") {
+		if f[1] == "zero-value" || f[1] == "concat-shared-prefix" || strings.Contains(d.input, " "+want+" ") {
 			out = append(out, d.key+": "+d.what)
 		}
 	}
@@ -921,4 +929,66 @@ func replayDirect(line string) string {
 		return "law holds"
 	}
 	return strings.Join(out, "\n")
+}
+
+// sharedPrefixLaws (C12; found by the session-6 audit): an iterator value that has NOT been consumed may be extended twice
+// (`x := r.Concat(t1); y := r.Concat(t2)`).  Building y consumes nothing, so x must still deliver the elements of r followed by
+// those of t1 - "the same elements in the same order as the eager Seq computation" of the expression that built x.
+// Iterator.Concat kept the list of its parts in a slice with spare capacity and appended to it in place: building y overwrote
+// the last part of x.
+func sharedPrefixLaws(r *Rng) int {
+	checks := 0
+	for rep := 0; rep < 40; rep++ {
+		nparts := 1 + r.Intn(4)
+		var want []int
+		next := 1
+		part := func() fp.Iterator[int] {
+			k := r.Intn(3)
+			xs := []int{}
+			for i := 0; i < k; i++ {
+				xs = append(xs, next)
+				next++
+			}
+			want = append(want, xs...)
+			return iterator.Of(xs...)
+		}
+		// b is itself a Concat chain (its part list is copied into r's), or a plain iterator
+		a := part()
+		var b fp.Iterator[int]
+		shape := "plain"
+		if nparts > 1 {
+			b = part()
+			for i := 2; i < nparts; i++ {
+				b = b.Concat(part())
+			}
+			shape = fmt.Sprintf("chain%d", nparts-1)
+		} else {
+			b = part()
+		}
+		rr := a.Concat(b)
+		base := append([]int{}, want...)
+		ext := func(it fp.Iterator[int], v int, how int) fp.Iterator[int] {
+			switch how {
+			case 0:
+				return it.Concat(iterator.Of(v))
+			case 1:
+				return it.Appended(v)
+			}
+			return it.Concat(iterator.Of(v).Concat(iterator.Of(v + 1)))
+		}
+		h1, h2 := r.Intn(3), r.Intn(3)
+		x := ext(rr, 100, h1)
+		_ = ext(rr, 200, h2) // built, never consumed
+		wantX := append(append([]int{}, base...), 100)
+		if h1 == 2 {
+			wantX = append(wantX, 101)
+		}
+		checks++
+		got := guarded(func() string { return Show(x.ToSeq()) })
+		if got != Show(wantX) {
+			recordFail("Concat.shared-prefix", fmt.Sprintf("(law concat-shared-prefix %s first=%d second=%d base=%s)", shape, h1, h2, Show(base)),
+				"x := r.Concat(t1); y := r.Concat(t2) (y never consumed): x delivers "+got+", the eager computation of r ++ t1 gives "+Show(wantX))
+		}
+	}
+	return checks
 }
